@@ -34,6 +34,15 @@ class Buf(io.BytesIO):
 DECLARED_CLAIMS = [P.Implies(P.MetaVar(0), P.MetaVar(0)), P.Exists(0, P.EVar(0))]
 
 
+def symbol_table(it) -> dict:
+    """name -> number table of a serialising interpreter, found by shape (a dict from str to int) rather than by name"""
+    out = {}
+    for v in vars(it).values():
+        if isinstance(v, dict) and v and all(isinstance(k, str) and isinstance(x, int) for k, x in v.items()):
+            out.update(v)
+    return out
+
+
 class Sim:
     """a real SerializingInterpreter plus what the harness needs to snapshot / restore it"""
 
@@ -45,24 +54,29 @@ class Sim:
         self.published_claims = 0
 
     def snapshot(self):
+        """generic over the interpreter's attributes (no private names): containers are copied, the rest kept by reference"""
         it = self.it
-        return (it.phase, list(it.stack), list(it.memory), list(it.claims), dict(it._symbol_identifiers), it.out,
-                [b.tell() for b in self.bufs], list(self.ghosts), self.published_claims, set(it._interpreting_warnings))
+        attrs = {}
+        for k, v in vars(it).items():
+            if isinstance(v, (list, dict, set)):
+                attrs[k] = type(v)(v)
+            else:
+                attrs[k] = v
+        return (attrs, [b.tell() for b in self.bufs], list(self.ghosts), self.published_claims)
 
     def restore(self, s):
         it = self.it
-        it.phase, st, me, cl, sy, out, lens, gh, pc, w = s
-        it.stack = list(st)
-        it.memory = list(me)
-        it.claims = list(cl)
-        it._symbol_identifiers = dict(sy)
-        it.out = out
+        attrs, lens, gh, pc = s
+        for k in list(vars(it)):
+            if k not in attrs:
+                delattr(it, k)
+        for k, v in attrs.items():
+            setattr(it, k, type(v)(v) if isinstance(v, (list, dict, set)) else v)
         for b, n in zip(self.bufs, lens):
             b.seek(n)
             b.truncate(n)
         self.ghosts = list(gh)
         self.published_claims = pc
-        it._interpreting_warnings = set(w)
 
     def bytes3(self):
         return tuple(b.getvalue() for b in self.bufs)
@@ -302,7 +316,7 @@ def entry_term(x, symtab):
 def tracker_view(sim):
     """(stack without ghosts, memory, claims) as machine-comparable terms, using the serialiser's symbol table"""
     it = sim.it
-    symtab = dict(it._symbol_identifiers)
+    symtab = symbol_table(it)
     n0 = len(symtab)
     stack = tuple(entry_term(x, symtab) for i, x in enumerate(it.stack) if i not in sim.ghosts)
     memory = tuple(entry_term(x, symtab) for x in it.memory)
@@ -316,7 +330,7 @@ def canon(sim) -> str:
                   for x in it.stack)
     me = ';'.join(('T:' if isinstance(x, Proved) else 'P:') + rm.show(bridge.expand(x.conclusion if isinstance(x, Proved) else x))
                   for x in it.memory)
-    return f'{it.phase.value}|{st}|{me}|{len(it.claims)}|{sorted(it._symbol_identifiers.items())}|{sim.ghosts}|{sim.published_claims}'
+    return f'{it.phase.value}|{st}|{me}|{len(it.claims)}|{sorted(symbol_table(it).items())}|{sim.ghosts}|{sim.published_claims}'
 
 
 def explore_chunk_generic(histories, event_names, visit, claims=None, max_stack=5, max_mem=3, max_size=14):
